@@ -178,7 +178,10 @@ def render_value(render, res, alloc):
         return "[" + ",".join(render["names"][i] for i in ids) + "]"
     if r == "fixed_unary":
         d = int(f[1])
-        return '"0.5"' if d < 0 else '"%s"' % ("%.*f" % (d, 0.5))
+        x = render.get("x", 0.5)
+        if d < 0:
+            return '"0.5"' if x == 0.5 else None
+        return '"%s"' % ("%.*f" % (d, x))
     if r == "fixed_binary":
         return '"%s"' % ("%.*f" % (int(f[1]), 1.25))
     if r == "sorted":
@@ -374,6 +377,11 @@ def gen_cases(rng, thorough):
     for f in IDX_POOL + [fin(19), fin(20), fin(21), fin(20.9)]:
         cs.append(Case("toFixed", "toFixed %s; str 0.5" % f.sqf, ["to_fixed_unary", f.tok], {"r": "fixed_unary"}, defect="float-int-casts"))
         cs.append(Case("toFixed", "1.25 toFixed %s" % f.sqf, ["to_fixed_binary", f.tok], {"r": "fixed_binary"}, defect="float-int-casts"))
+        # the same print mode on numbers with many digits in front of the point (the longest texts a scalar can print as)
+        for lit in ("1e38", "(-1e30)", "3.4e38", "1e26", "(-3.4e38)", "16777216", "1e20"):
+            xv = struct.unpack("f", struct.pack("f", float(lit.strip("()"))))[0]
+            cs.append(Case("toFixed", "toFixed %s; str %s" % (f.sqf, lit), ["to_fixed_unary", f.tok], {"r": "fixed_unary", "x": xv},
+                           defect="float-int-casts"))
     # ---- configClasses / configProperties
     for _ in range(200 if thorough else 14):
         k = rng.choice([0, 1, 2, 3, 6])
